@@ -1,7 +1,7 @@
 (* C06 - A failed mutation never corrupts, and single-container operations are atomic.  Statements only.
    In the machine an `Err c` outcome carries no state: it is only produced on paths that return before any
    write (errors raised after a write are modelled as `efail` and keep the modified state - that is how the
-   recorded finding D16 shows up in the model).  PROVED for EVERY enum-free shape and list operations at any
+   recorded finding D16 shows up in the model).  PROVED for EVERY shape (generated enums included; `plain t = true` holds of every shape, C01_every_shape) and list operations at any
    nesting depth (C06_general_...): every failure - index, range, length prefix, growth beyond the allowance, growth
    refused - is a clean `Err` with the owned model's code, the state reached by the descent still represents the same
    value, and histories with failures in them keep refining the owned model.  PROVED for flat shapes (special case): every failure of a list operation -
